@@ -457,7 +457,30 @@ def evaluate(prop, res):
                 src, _ = decl_source(table, d)
                 add("violation", "builder() is %s although the declaration is %s" % ("offered" if real_has else "missing", "sound and complete" if sound else "unsound or incomplete"),
                     {"declaration": name, "source": src, "double_covered": sorted(p for p, v in counts.items() if v > 1)[:8]})
-            # type-state chain of the real expansion: impl headers Partial<prev> … -> Partial<next>
+            # type-state chain of the real expansion (impl headers Partial<prev> … -> Partial<next>) vs the model's
+            mb = model.get(name, {}).get("builder", "none")
+            real_chain = res.get("chains", {}).get(name)
+            if real_has and mb.startswith("chain"):
+                want = []
+                final = None
+                for w in mb.split(" ")[1:]:
+                    if w.startswith("final="):
+                        final = int(w[6:], 0)
+                    elif w:
+                        fn, a, b = w.rsplit(":", 2)
+                        want.append(["with_" + render.ident_noraw(fn), int(a, 0), int(b, 0)])
+                want.append(["build", final, None])
+                cov["chains_compared"] += 1
+                if real_chain != want:
+                    # is the real chain still linear with strictly growing masks and build() only at the end?
+                    ok_linear = bool(real_chain) and real_chain[-1][0] == "build" and all(
+                        real_chain[i][2] == real_chain[i + 1][1] and real_chain[i][1] != real_chain[i][2] and (real_chain[i][1] & real_chain[i][2]) == real_chain[i][1]
+                        for i in range(len(real_chain) - 1)) and real_chain[0][1] == 0
+                    if ok_linear:
+                        add("correspondence", "builder mask chain differs from the model", {"declaration": name, "real": real_chain, "model": want})
+                    else:
+                        src, _ = decl_source(table, d)
+                        add("violation", "builder type-state is not a strictly growing linear chain", {"declaration": name, "real": real_chain, "source": src})
     # ---- compile-time probes (C14 type-state, C17 presence / absence) -------------------------------------------------
     if prop in ("C14", "C17"):
         pr = res.get("probes", {})
